@@ -1,8 +1,9 @@
 /-
-C01 main theorem, assembly (with folds, fragment F3a): `toIR S q = .ok ir` + `Hyps3` ⇒ `RootCert`
-⇒ equality of rows.
+C01 main theorem, assembly (with folds): `toIR S q = .ok ir` + `Hyps3` ⇒ `RootCert` ⇒ equality of
+rows.
 -/
 import TrustfallModel.Proofs.InterpSpec4.StaticRootAux
+import TrustfallModel.Proofs.InterpSpec4.StaticImports
 
 namespace TF.InterpSpec
 open TF TF.Engine TF.Spec TF.Frontend
@@ -36,20 +37,23 @@ theorem tablesOK_worldOf3 (D args edges comp) (tbl : List (Vid × List QField))
     have := ftblLookup_of_mem hfn hm
     simp [worldOf3, this]
 
-/-- **Fragment F3a**: every edge kind incl. `@fold` (arbitrarily nested, with count outputs, count
-tags and count filters), provided no fold imports a tag from an enclosing component. -/
+/-- **The theorem with folds**: every edge kind incl. `@fold` (arbitrarily nested, with count outputs,
+count tags and count filters, tags imported from enclosing components; also inside missing `@optional`
+scopes).  That the imports of the compiled query are in order is derived from `h`
+(`importsOKC_of_toIR`). -/
 theorem interp_eq_spec_F3a_core (S : SchemaView) (q : Query) (ir : IRQuery) (D : Data)
     (args : List (Name × Value)) (edges : List EdgeDecl) (lim : Bool)
     (hlim : lim = false ∨ noFold q.root = true)
-    (h : toIR S q = .ok ir) (hh : Hyps3 ⟨S, D, args, edges⟩ q ir) :
+    (h : toIR S q = .ok ir) (hh : Hyps3 ⟨S, D, args, edges⟩ q) :
     (interpret { Env.ofData D args with useLimits := lim } ir).toOption =
       (Spec.rows ⟨D, args, edges⟩ q).toOption := by
+  have hnoimp := importsOKC_of_toIR h
+  have hh1 : hyps3B ⟨S, D, args, edges⟩ q = true := hh
   have hwft := (toIR_tags_imports h).1
   have huniq := (toIR_unique h).1
   obtain ⟨root, rootParams, acc, st1, comp, evs, st2, vars, hroot, hrp, hfill, hfin, _, _, hnames,
     rfl⟩ := toIR_inv h
   obtain ⟨vs, ev, hmk, rfl, _⟩ := finishComponent_inv hfin
-  obtain ⟨hh1, hnoimp⟩ := hh
   simp only [hyps3B, hroot, hrp, Bool.and_eq_true, decide_eq_true_eq] at hh1
   obtain ⟨⟨hstart, hfuel⟩, hnode⟩ := hh1
   have h0 : St.init.nextVid = St.init.nextEid + 1 := rfl
@@ -125,7 +129,7 @@ theorem interp_eq_spec_F3a_core (S : SchemaView) (q : Query) (ir : IRQuery) (D :
     rw [hcv]
     exact find?_vertex_of_mem (V := ⟨r'.vid, r'.typeName, r'.coercedFrom, fs'⟩) hndv hmem
   obtain ⟨ss, hcert, hrf⟩ := (cert_fill3 S ⟨S, D, args, edges⟩ rfl st1.tags tbl ftbl hT).1
-    _ _ _ _ _ _ _ hfill W false [] [] AE hEnv htab hWNR hc (by rw [hWlim]; exact hlim) hnode
+    _ _ _ _ _ _ _ hfill W [] [] AE hEnv htab hWNR hc (by rw [hWlim]; exact hlim) hnode
     (nodup_of_namesDistinct hnames) h0
     (by rw [hAEDef]; simp; rfl) (by rw [htblDef]; exact fun p hp => hp)
     (by rw [hftblDef]; exact fun p hp => hp) hHV (by rw [hcf]; exact fun f hf => hf)
